@@ -177,6 +177,36 @@ def r10_5(rep, M, rid):
         else:
             rep.violation(rid, f"get_distances: `{norm(s)}`", f"the subtracted matrix is not r_i + r_j of get_radii (symmetric: {sym}, from get_radii: {from_radii})",
                           M.where(fq, s))
+    # the plain (non minimum-image) fallback may only be taken when *no* direction is periodic
+    DISPQ = GEO + ".get_displacement_tensor"
+    for t in [t for t in ast.walk(fn) if isinstance(t, ast.If) and "pbc" in norm(t.test) and t.orelse]:
+        def with_pbc(stmts):
+            return any(isinstance(c, ast.Call) and DISPQ in M.callees_of_call(fq, c) and
+                       (len(c.args) >= 3 or any(k.arg in ("pbc", "cell") for k in c.keywords)) for s2 in stmts for c in ast.walk(s2))
+        def without_pbc(stmts):
+            return any(isinstance(c, ast.Call) and DISPQ in M.callees_of_call(fq, c) and
+                       len(c.args) < 3 and not any(k.arg in ("pbc", "cell") for k in c.keywords) for s2 in stmts for c in ast.walk(s2))
+        if not (with_pbc(t.body) and without_pbc(t.orelse)) and not (with_pbc(t.orelse) and without_pbc(t.body)):
+            continue
+        test, neg = t.test, with_pbc(t.orelse)
+        while isinstance(test, ast.UnaryOp) and isinstance(test.op, ast.Not):
+            test, neg = test.operand, not neg
+        red = None
+        if isinstance(test, ast.Call) and isinstance(test.func, ast.Attribute) and test.func.attr in ("any", "all") and not test.args:
+            red, subj = test.func.attr, test.func.value
+        elif isinstance(test, ast.Call) and test.args and (M.ext_name(fq, test.func) in ("numpy.any", "numpy.all") or
+                                                         (isinstance(test.func, ast.Name) and test.func.id in ("any", "all"))):
+            red, subj = (M.ext_name(fq, test.func) or test.func.id).split(".")[-1], test.args[0]
+        if red is None:
+            raise AnalysisError(f"get_distances: periodicity dispatch `{norm(t.test)}` not recognised")
+        from_pbc = any(isinstance(c, ast.Call) and isinstance(c.func, ast.Attribute) and c.func.attr == "get_pbc"
+                       for e in fl.slice(subj, fl.node_of(t))["exprs"] for c in ast.walk(e))
+        if red == "any" and not neg and from_pbc:
+            rep.ok(rid, "get_distances: the plain-difference fallback is taken only when no direction is periodic (`pbc.any()` selects the minimum-image call)")
+        else:
+            rep.violation(rid, f"get_distances: periodicity dispatch `{norm(t.test)}`", "the minimum-image call is selected by "
+                          f"`{'not ' if neg else ''}{red}` of the flags: systems periodic in only some directions (slabs, wires) take the "
+                          "plain-difference branch, so every table handed to the classifier / SBC ignores the periodic images", M.where(fq, t))
     # finite systems: zero factors of the right shape
     orelse = [t for t in ast.walk(fn) if isinstance(t, ast.If) and "pbc" in norm(t.test) and t.orelse]
     if orelse and any(isinstance(s2, ast.Assign) and "zeros" in norm(s2.value) for s2 in orelse[0].orelse):
@@ -208,7 +238,7 @@ def run(rep, ctx):
         cxxrules.infinite_cutoff(rep, "R10.4")
     with rep.guard("R10.5"):
         r10_5(rep, M, "R10.5")
-    rep.floor("R10.5", 6)
+    rep.floor("R10.5", 7)
     rep.floor("R10.1", 14)
     rep.floor("R10.2", 10)
     rep.floor("R10.3", 20)
